@@ -4,6 +4,8 @@ package consul
 
 import (
 	"bytes"
+	"net"
+	"strconv"
 	"strings"
 
 	"github.com/fabiolb/fabio/internal/vp"
@@ -31,43 +33,135 @@ func vpCheckCmds(cmds []string, name, src, addrport string) {
 	}
 }
 
-// VPH_C14_tags: a service with an arbitrary additional tag (quotes, backslashes, commas, spaces).
+// vpChars is a string of at most max characters over set; the length is chosen first, so the string has
+// a concrete shape with symbolic characters.
+func vpChars(label, set string, max int) string {
+	n := vp.Choice(label+"-len", max+1)
+	for i := 0; i < max; i++ {
+		if n == i {
+			return vp.Chars(label, set, i)
+		}
+	}
+	return vp.Chars(label, set, max)
+}
+
+// VPH_C14_tags: a service with an arbitrary additional tag (quotes, backslashes, commas, white space).
 func VPH_C14_tags() {
-	other := vp.StringOf("othertag", "a-z \"\\,=", vp.Param("LEN"))
+	other := vpChars("othertag", "a-z \"\\,=\t\n", vp.Param("LEN"))
 	host := "foo.com"
 	if vp.Bool("upper-case-host") {
 		host = "Foo.COM"
 	}
 	svc := &api.CatalogService{ServiceName: "svc", ServiceAddress: "1.2.3.4", ServicePort: 8080, ServiceTags: []string{"urlprefix-" + host + "/x", other}}
 	cmds := routecmd{svc: svc, prefix: "urlprefix-"}.build()
+	vp.Assert(len(cmds) <= 1, "at-most-one-command-per-routing-tag")
 	vpCheckCmds(cmds, "svc", "foo.com/x", "1.2.3.4:8080")
-	if len(cmds) == 1 && strings.TrimSpace(other) != "" && !strings.ContainsAny(other, "\"\\,") {
+	if !strings.ContainsAny(other, "\"\n") {
+		// the registration is expressible: it must not be dropped
+		vp.Assert(len(cmds) == 1, "expressible-registration-kept")
+	}
+	if len(cmds) == 1 && !strings.ContainsAny(other, ",") {
 		vp.Cover("plain-tag")
 		defs, err := route.Parse(bytes.NewBufferString(cmds[0]))
 		if err == nil && len(defs) == 1 {
-			vp.Assert(len(defs[0].Tags) == 1 && defs[0].Tags[0] == strings.TrimSpace(other), "denotes-the-tags")
+			if strings.TrimSpace(other) == "" {
+				vp.Assert(len(defs[0].Tags) <= 1, "denotes-the-tags")
+			} else {
+				vp.Assert(len(defs[0].Tags) == 1 && defs[0].Tags[0] == strings.TrimSpace(other), "denotes-the-tags")
+			}
 		}
 	}
 }
 
 // VPH_C14_weight: a routing tag with an arbitrary weight= option text.
 func VPH_C14_weight() {
-	w := vp.StringOf("weight", "0-9a-zA-Z.+-", vp.Param("LEN"))
+	w := vpChars("weight", "0-9a-zA-Z.+-", vp.Param("LEN"))
 	svc := &api.CatalogService{ServiceName: "svc", ServiceAddress: "1.2.3.4", ServicePort: 8080, ServiceTags: []string{"urlprefix-foo.com/x weight=" + w + " strip=/x"}}
 	cmds := routecmd{svc: svc, prefix: "urlprefix-"}.build()
+	vp.Assert(len(cmds) <= 1, "at-most-one-command-per-routing-tag")
 	vpCheckCmds(cmds, "svc", "foo.com/x", "1.2.3.4:8080")
+	if len(cmds) == 1 {
+		defs, err := route.Parse(bytes.NewBufferString(cmds[0]))
+		if err == nil && len(defs) == 1 {
+			vp.Cover("weight-accepted")
+			vp.Assert(defs[0].Opts["strip"] == "/x" && len(defs[0].Opts) == 1, "denotes-the-options")
+			if w == "" {
+				vp.Assert(defs[0].Weight == 0, "denotes-the-weight")
+			} else {
+				f, err := strconv.ParseFloat(w, 64)
+				vp.Assert(err == nil && (f == defs[0].Weight || f != f), "denotes-the-weight")
+			}
+		}
+	}
+	if w == "" || w == "0.5" || w == "1" {
+		vp.Assert(len(cmds) == 1, "expressible-registration-kept")
+	}
+}
+
+// VPH_C14_opts: a routing tag with an arbitrary option string.
+func VPH_C14_opts() {
+	o := vpChars("opts", "a-z =\"\\/", vp.Param("LEN"))
+	svc := &api.CatalogService{ServiceName: "svc", ServiceAddress: "1.2.3.4", ServicePort: 8080, ServiceTags: []string{"urlprefix-foo.com/x " + o}}
+	cmds := routecmd{svc: svc, prefix: "urlprefix-"}.build()
+	vp.Assert(len(cmds) <= 1, "at-most-one-command-per-routing-tag")
+	vpCheckCmds(cmds, "svc", "foo.com/x", "1.2.3.4:8080")
+	if !strings.ContainsAny(o, "\"") {
+		vp.Assert(len(cmds) == 1, "expressible-registration-kept")
+	}
+	if len(cmds) == 1 {
+		defs, err := route.Parse(bytes.NewBufferString(cmds[0]))
+		if err == nil && len(defs) == 1 {
+			vp.Cover("opts-accepted")
+			// every option of the tag is an option of the command
+			for _, f := range strings.Fields(o) {
+				k := f
+				if i := strings.Index(f, "="); i >= 0 {
+					k = f[:i]
+				}
+				_, ok := defs[0].Opts[k]
+				vp.Assert(ok, "denotes-the-options")
+			}
+		}
+	}
 }
 
 // VPH_C14_names: arbitrary service name and address text.
 func VPH_C14_names() {
 	n := vp.Param("LEN")
-	name := vp.StringOf("name", "a-zA-Z0-9._-", n)
-	addr := vp.StringOf("addr", "0-9a-z.", n)
+	name := vpChars("name", "a-zA-Z0-9._ \"-", n)
+	addr := vpChars("addr", "0-9a-z.: ", n)
 	vp.Assume(name != "" && addr != "")
 	svc := &api.CatalogService{ServiceName: name, ServiceAddress: addr, ServicePort: 8080, ServiceTags: []string{"urlprefix-foo.com/x"}}
 	cmds := routecmd{svc: svc, prefix: "urlprefix-"}.build()
-	vp.Assert(len(cmds) == 1, "one-command")
-	vpCheckCmds(cmds, name, "foo.com/x", addr+":8080")
+	vp.Assert(len(cmds) <= 1, "at-most-one-command-per-routing-tag")
+	vpCheckCmds(cmds, name, "foo.com/x", net.JoinHostPort(addr, "8080"))
+	if !strings.ContainsAny(name, " ") && !strings.ContainsAny(addr, " ") {
+		vp.Assert(len(cmds) == 1, "expressible-registration-kept")
+	}
+}
+
+// VPH_C14_alongside: an arbitrary registration next to a well-formed one never blocks the table update.
+func VPH_C14_alongside() {
+	other := vpChars("othertag", "a-z \"\\,\n", vp.Param("LEN"))
+	w := vpChars("weight", "0-9a-z.", vp.Param("LEN"))
+	bad := &api.CatalogService{ServiceName: "bad", ServiceAddress: "1.2.3.4", ServicePort: 8080, ServiceTags: []string{"urlprefix-foo.com/x weight=" + w, other}}
+	good := &api.CatalogService{ServiceName: "good", ServiceAddress: "5.6.7.8", ServicePort: 9090, ServiceTags: []string{"urlprefix-bar.com/y"}}
+	cmds := routecmd{svc: bad, prefix: "urlprefix-"}.build()
+	cmds = append(cmds, routecmd{svc: good, prefix: "urlprefix-"}.build()...)
+	defs, err := route.Parse(bytes.NewBufferString(strings.Join(cmds, "\n")))
+	vp.Assert(err == nil, "config-accepted-by-parser")
+	if err != nil {
+		return
+	}
+	found := false
+	for _, d := range defs {
+		vp.Assert(d.Cmd == route.RouteAddCmd && (d.Service == "good" || d.Service == "bad"), "only-registered-services")
+		if d.Service == "good" && d.Src == "bar.com/y" && d.Dst == "http://5.6.7.8:9090/" {
+			found = true
+		}
+	}
+	vp.Assert(found, "well-formed-service-routed")
+	vp.Assert(len(defs) <= 2, "no-extra-commands")
 }
 
 func vpItoa(n int) string {
